@@ -1133,6 +1133,186 @@ std::string check() {
 }
 } // namespace macro_world
 
+
+// ---- construction world: open methods called from the constructor and the
+// destructor of an *abstract* base. While a base sub-object is being
+// constructed or destroyed the dynamic class of the object is that base, so
+// the call dispatches on a registered abstract class: through the hash, the
+// abstract class's own v-table and (for the pair method) its row of a
+// multi-method table. Registered statically with the keyword macros on a
+// checked std_rtti policy of its own; checked once per run after update and,
+// under the C13 focus, again after encode / decode in a "consumer process".
+
+namespace ctor_world {
+struct CBase {
+    virtual ~CBase() {
+    }
+};
+struct CShape;
+int cw_probe(CShape& self);
+struct CShape : CBase {
+    int in_ctor = -1;
+    int* dtor_out;
+    explicit CShape(int* out) : dtor_out(out) {
+        in_ctor = cw_probe(*this);
+    }
+    ~CShape() override {
+        try {
+            *dtor_out = cw_probe(*this);
+        } catch (TwThrow&) {
+            *dtor_out = -2;
+        }
+    }
+    virtual int sides() const = 0;
+};
+struct CSquare : CShape {
+    using CShape::CShape;
+    int sides() const override {
+        return 4;
+    }
+};
+struct CCircle : CShape {
+    using CShape::CShape;
+    int sides() const override {
+        return 0;
+    }
+};
+static_assert(std::is_abstract_v<CShape>);
+
+register_classes(CBase, CShape, CSquare, CCircle, cw_policy);
+declare_method(int, cwname, (virtual_<CBase&>), cw_policy);
+define_method(int, cwname, (CBase&)) {
+    return 1;
+}
+define_method(int, cwname, (CShape&)) {
+    return 2;
+}
+define_method(int, cwname, (CSquare&)) {
+    return 3;
+}
+declare_method(int, cwpair, (virtual_<CBase&>, virtual_<CShape&>), cw_policy);
+define_method(int, cwpair, (CBase&, CShape&)) {
+    return 10;
+}
+define_method(int, cwpair, (CShape&, CShape&)) {
+    return 20;
+}
+define_method(int, cwpair, (CSquare&, CSquare&)) {
+    return 30;
+}
+using PBase = y2::virtual_ptr<CBase, cw_policy>;
+using PShape = y2::virtual_ptr<CShape, cw_policy>;
+using PSquare = y2::virtual_ptr<CSquare, cw_policy>;
+declare_method(int, cwptr, (PBase), cw_policy);
+define_method(int, cwptr, (PBase)) {
+    return 4;
+}
+define_method(int, cwptr, (PShape)) {
+    return 5;
+}
+define_method(int, cwptr, (PSquare)) {
+    return 6;
+}
+
+// what an object answers about itself: 1000 * cwptr + 100 * cwname + cwpair
+int cw_probe(CShape& self) {
+    CBase& b = self;
+    // from a base reference: the dynamic class is looked up
+    y2::virtual_ptr<CBase, cw_policy> p(b);
+    return 1000 * cwptr(p) + 100 * cwname(b) + cwpair(b, self);
+}
+
+std::string probe_all(const char* when) {
+    struct Want {
+        int ctor, alive, dtor;
+    };
+    auto one = [&](auto tag, const char* name, Want w) -> std::string {
+        using T = std::remove_pointer_t<decltype(tag)>;
+        int dt = -1, ct = -1, alive = -1;
+        try {
+            T obj(&dt);
+            ct = obj.in_ctor;
+            alive = cw_probe(obj);
+        } catch (TwThrow& t) {
+            return std::string(when) + ": a call on a " + name +
+                " (under construction or complete) raised error alternative " +
+                std::to_string(t.alt);
+        }
+        if (ct != w.ctor)
+            return std::string(when) + ": in the constructor of the abstract base of a " + name +
+                " the methods answered " + std::to_string(ct) + ", expected " + std::to_string(w.ctor);
+        if (alive != w.alive)
+            return std::string(when) + ": a complete " + name + " answered " + std::to_string(alive) +
+                ", expected " + std::to_string(w.alive);
+        if (dt != w.dtor)
+            return std::string(when) + ": in the destructor of the abstract base of a " + name +
+                " the methods answered " + std::to_string(dt) + ", expected " + std::to_string(w.dtor);
+        return "";
+    };
+    // during construction / destruction of the CShape sub-object: CShape's
+    // definitions (5, 2, 20); complete square: (6, 3, 30); complete circle:
+    // CShape's again
+    std::string why = one((CSquare*)nullptr, "CSquare", {5220, 6330, 5220});
+    if (why.empty())
+        why = one((CCircle*)nullptr, "CCircle", {5220, 5220, 5220});
+    return why;
+}
+
+// returns the property and what went wrong, or ""
+std::pair<std::string, std::string> check(bool decode_too) {
+    cw_policy::error = &tw_handler;
+    std::string encoded;
+    try {
+        auto comp = y2::update<cw_policy>();
+#ifndef YS_NO_GLUE
+        if (decode_too)
+            encoded = glue_encode<cw_policy>(comp, "P");
+#endif
+    } catch (TwThrow&) {
+        return {"C01", "update of the construction world reported an error"};
+    }
+    std::string why = probe_all("after update");
+    if (!why.empty())
+        return {"C01", why};
+    if (encoded.empty())
+        return {"", ""};
+    // a consumer process: nothing published yet, then decode
+    EmittedData em;
+    why = parse_emitted(encoded, em);
+    if (!why.empty())
+        return {"C13", "construction world: emitted text malformed: " + why};
+    std::vector<std::uintptr_t>().swap(cw_policy::dispatch_data);
+    std::vector<const std::uintptr_t*>().swap(cw_policy::vptrs);
+    std::vector<y2::type_id>().swap(cw_policy::control);
+    cw_policy::hash_mult = cw_policy::hash_shift = cw_policy::hash_length = 0;
+    cw_policy::hash_min = cw_policy::hash_max = 0;
+    cw_policy::static_vptr<CBase> = nullptr;
+    cw_policy::static_vptr<CShape> = nullptr;
+    cw_policy::static_vptr<CSquare> = nullptr;
+    cw_policy::static_vptr<CCircle> = nullptr;
+    DecodeView d;
+    std::size_t size = 0;
+    unsigned char* block = layout_emitted(em, d, size);
+    try {
+        y2::decode_dispatch_data<cw_policy>(d);
+        why = probe_all("after decode");
+    } catch (TwThrow& t) {
+        why = "construction world: decode_dispatch_data reported error alternative " +
+            std::to_string(t.alt);
+    }
+    // back to the state of a process that updates (the block goes away)
+    cw_policy::static_vptr<CBase> = nullptr;
+    cw_policy::static_vptr<CShape> = nullptr;
+    cw_policy::static_vptr<CSquare> = nullptr;
+    cw_policy::static_vptr<CCircle> = nullptr;
+    std::vector<const std::uintptr_t*>().swap(cw_policy::vptrs);
+    std::free(block);
+    if (!why.empty())
+        return {"C13", why};
+    return {"", ""};
+}
+} // namespace ctor_world
+
 // ---- a case: {"policy": name, "events": [["load", k], ["unload", k], ["update"], ["check"]]}
 
 std::string g_tw_focus = "C01";
@@ -1711,6 +1891,12 @@ MiniOutcome tw_run_t(const J& c) {
         std::string why = macro_world::check();
         if (!why.empty())
             ex.viols.push_back({why.find("next") != std::string::npos ? "C03" : "C01", "macro-world", why});
+    }
+    {
+        auto why = ctor_world::check(g_tw_focus == "C13");
+        if (!why.first.empty())
+            ex.viols.push_back({why.first, "construction-world", why.second});
+        o.counters["construction_world_checks"] = 1;
     }
     ex.run(c.at("events").a);
     if (g_tw_focus == "C13" && ex.clean && ex.viols.empty())
